@@ -2,6 +2,7 @@ SPECIFICATION GenSpec
 CONSTANTS
   RecordHist = TRUE
   FixF4 = FALSE
+  FixF36 = FALSE
   Users = {"u1", "u2", "u3", "u4"}
   Consumers = {"u3", "u4"}
   Actors = {"u3", "u4", "u1"}
